@@ -266,7 +266,7 @@ func (x *c04ctx) certTerm(c *certs.FinalityCertificate) string {
 }
 
 func runC04(o *out, r *rng, thorough bool, replay string) {
-	o.Rule = "deltas: random pairs of well-formed tables (members added/removed/re-keyed/re-weighted, 2^200 and dust powers) and structurally near-valid corruptions of their diffs; certificates: honest chains over evolving tables and single/multi-field corruptions (instance, tipsets, supplemental data, signer set at the 2/3 boundary, signature, delta, order, truncation, splicing across histories/networks); non-trivial = chain has >=2 certs with a non-empty delta, or a corruption rejected for a reason other than wrong instance; for deltas: diff non-empty"
+	o.Rule = "deltas: random pairs of well-formed tables (members added/removed/re-keyed/re-weighted, 2^200 and dust powers) and structurally near-valid corruptions of their diffs; certificates: honest chains over evolving tables and single/multi-field corruptions (instance, tipsets, supplemental data, signer set at the 2/3 boundary, signature, delta, order, truncation, splicing across histories/networks); non-trivial = chain has >=2 certs with a non-empty delta, or a corruption rejected for a reason other than wrong instance; for deltas: diff non-empty; chains include decisions on the base alone and certificates from a sibling fork signed by an honest quorum (only the linkage can reject them), with an independent linkage monitor"
 	x := &c04ctx{t: newTok(), sigs: map[string]*sigRec{}}
 	t := x.t
 	// ---------- (A) deltas ----------
